@@ -9,6 +9,7 @@ CONSTANTS
   MaxOps = 4
   Faults = {}
   AllowGap = FALSE
+  Dups = FALSE
   AllowRestart = TRUE
   AllowReorg = FALSE
   Rollups = {1, 2}
